@@ -36,6 +36,16 @@
 #include <errno.h>
 #include <sys/mman.h>
 #include <sys/wait.h>
+#if defined(__has_feature)
+#if __has_feature(address_sanitizer)
+#include <sanitizer/asan_interface.h>
+#define HAVE_ASAN_IF 1
+#endif
+#endif
+#ifndef HAVE_ASAN_IF
+#define ASAN_POISON_MEMORY_REGION(a, n) ((void)(a), (void)(n))
+#define ASAN_UNPOISON_MEMORY_REGION(a, n) ((void)(a), (void)(n))
+#endif
 
 #include "lib_common/of_openfec_api.h"
 #include "lib_stable/ldpc_staircase/of_ldpc_includes.h"
@@ -177,7 +187,7 @@ typedef struct {
 	void *pool[MAXCB]; int pool_esi[MAXCB]; int npool;
 	int **H; int *Hn; int nH;          /* rows as lists of ESIs */
 	void **lasttab;                    /* last table returned by get_source_symbols_tab */
-	int lasttab_valid; int ngettab;
+	int lasttab_valid; int ngettab; int seen_complete;
 } dses_t;
 static dses_t S[MAXS];
 static long g_exec;
@@ -286,6 +296,17 @@ static void emit_vec(const dses_t *s, const unsigned char *b)
 
 #define LIB_ENTER(sid) do { g_cur_ses = (sid); g_lib_allocs = 0; g_in_lib++; } while (0)
 #define LIB_LEAVE()    do { g_in_lib--; } while (0)
+
+/* "it is assumed that the buffers provided ... will be available throughout the decoding process" (of_openfec_api.h):
+ * once the application has SEEN decoding complete it may consume and free its symbol buffers and the buffers its
+ * callback handed out.  From then on they are off limits during the queries, a further of_finish_decoding and the
+ * release (ASan user poisoning around those calls; the driver itself still needs them for its comparisons) */
+static void app_buffers_off_limits(dses_t *s, int on)
+{
+	if (!s->seen_complete || !s->cw || !s->len) return;
+	for (uint32_t i = 0; i < s->n; i++) if (s->cw[i]) { if (on) ASAN_POISON_MEMORY_REGION(s->cw[i], s->len); else ASAN_UNPOISON_MEMORY_REGION(s->cw[i], s->len); }
+	for (int j = 0; j < s->npool; j++) if (s->pool[j]) { if (on) ASAN_POISON_MEMORY_REGION(s->pool[j], s->len); else ASAN_UNPOISON_MEMORY_REGION(s->pool[j], s->len); }
+}
 
 static void *cb_src(void *ctx, UINT32 size, UINT32 esi)
 {
@@ -641,9 +662,11 @@ static void cmd_gettab(int sid, int autocall)
 	int pre = autocall ? 0 : (int)((s->k + (uint32_t)s->ngettab++) & 1);     /* the query made for the release bookkeeping is a plain one */
 #define GT_POISON(i) ((void *)(uintptr_t)(0x5A5A0000u + 16u * ((i) % 4096u) + 8u))
 	if (pre) for (uint32_t i = 0; i < s->k; i++) tab[i] = GT_POISON(i);
+	app_buffers_off_limits(s, 1);
 	LIB_ENTER(sid);
 	of_status_t st = of_get_source_symbols_tab(s->ses, tab);
 	LIB_LEAVE();
+	app_buffers_off_limits(s, 0);
 	if (pre && st != OF_STATUS_OK) for (uint32_t i = 0; i < s->k; i++) if (tab[i] == GT_POISON(i)) tab[i] = NULL;
 	jb_printf("{\"e\":\"GetTab\",\"x\":%ld,\"s\":%d,\"auto\":%d,\"pre\":%d,\"tab\":[", g_exec, sid, autocall, pre);
 	for (uint32_t i = 0; i < s->k; i++) {
@@ -674,9 +697,11 @@ static void cmd_release(int sid)
 		mine = calloc(s->k ? s->k : 1, 1);
 		for (uint32_t i = 0; i < s->k; i++) { void *p = s->lasttab[i]; int pi; if (p && !strcmp(origin_of(s, p, i, &pi), "lib")) mine[i] = 1; }
 	}
+	app_buffers_off_limits(s, 1);
 	LIB_ENTER(sid);
 	of_status_t st = of_release_codec_instance(s->ses);
 	LIB_LEAVE();
+	app_buffers_off_limits(s, 0);
 	s->released = 1;
 	/* the application now frees what the API documents as its own */
 	long appowned = 0;
@@ -840,9 +865,11 @@ static void run_line(char *line)
 			if (!c) return;
 		}
 		g_ml_nperm = g_ml_npiv = g_ml_have_simpl = g_ml_fail = 0;
+		app_buffers_off_limits(s, 1);
 		LIB_ENTER(sid);
 		of_status_t st = of_finish_decoding(s->ses);
 		LIB_LEAVE();
+		app_buffers_off_limits(s, 0);
 		jb_printf("{\"e\":\"Finish\",\"x\":%ld,\"s\":%d", g_exec, sid);
 #ifndef OF_DRIVER_NO_INTERNALS
 		if (g_itproj && s->codec == 3 && s->configured && (int)s->n <= g_itproj && !s->payload && s->r <= MAXML) {
@@ -858,9 +885,12 @@ static void run_line(char *line)
 #endif
 		emit_common(s, sid, st); jb_printf("}\n"); jb_flush();
 	} else if (!strcmp(op, "complete")) {
+		app_buffers_off_limits(s, 1);
 		LIB_ENTER(sid);
 		int c = of_is_decoding_complete(s->ses) ? 1 : 0;
 		LIB_LEAVE();
+		app_buffers_off_limits(s, 0);
+		if (c && s->role == 2 && s->configured) s->seen_complete = 1;
 		jb_printf("{\"e\":\"Complete\",\"x\":%ld,\"s\":%d,\"val\":%d", g_exec, sid, c);
 		emit_lastnull(s, sid);
 		emit_common(s, sid, 0); jb_printf("}\n"); jb_flush();
